@@ -1,8 +1,81 @@
 import JokerVerif.Drive.Common
-/-! Driver handlers for C02 C06 C14 (to be filled in). -/
+import JokerVerif.Model.Reject
+import JokerVerif.Model.Iter
+/-! Driver handlers for C02 C06 C14: execute `Reject.rejectionSample` / `Iter.iterativeSample` on IEEE doubles.
+
+The scalar is `NpF`, a `Float` whose `max` propagates NaN like `numpy.ndarray.max` (Lean's `max` on `Float`
+would drop a NaN on the right); `<` and `-` are the IEEE operations, `expf = Float.exp` (C `exp`).
+A library row's nonlinear block is represented by `(row id, ln-likelihood of that row)`: the likelihood
+"function" is the second projection, the id lets the harness see which block was returned. -/
 open Lean Drive
+
 namespace Drive
 
-def rejectOps : List (String × H) := []
+structure NpF where
+  v : Float
+
+instance : LT NpF := ⟨fun a b => a.v < b.v⟩
+instance : DecidableLT NpF := fun a b => inferInstanceAs (Decidable (a.v < b.v))
+instance : Sub NpF := ⟨fun a b => ⟨a.v - b.v⟩⟩
+instance : Max NpF := ⟨fun a b => if a.v.isNaN || b.v.isNaN then ⟨0.0 / 0.0⟩ else if a.v < b.v then b else a⟩
+
+def npExp (x : NpF) : NpF := ⟨Float.exp x.v⟩
+def npNonFinite (x : NpF) : Bool := !x.v.isFinite
+
+def optNats (j : Json) (k : String) : Except String (Option (List Nat)) :=
+  match j.getObjVal? k with
+  | .ok .null => .ok none
+  | .ok v => (fromJson? v : Except String (Array Nat)).map (fun a => some a.toList)
+  | .error _ => .ok none
+
+def jNpFs (a : List NpF) : Json := jFloats (a.map (·.v))
+
+def errName : Reject.Err → String
+  | .value => "value" | .runtime => "runtime" | .maxiter => "maxiter" | .bad => "bad"
+
+def mkLib (libLL lnp : Array Float) : List (Reject.LibRow (Nat × NpF) NpF) :=
+  (List.range libLL.size).zipWith (fun j (p : Float × Float) => ⟨(j, ⟨p.1⟩), ⟨p.2⟩⟩) (libLL.toList.zip lnp.toList)
+
+def jOut (o : Reject.Out (Nat × NpF) NpF) : List (String × Json) :=
+  [("err", Json.null), ("evalRows", jNats o.evalRows), ("allLls", jNpFs o.allLls), ("good", jNats o.good),
+   ("full", jNats o.full), ("rows", jNats (o.rows.map (·.1))), ("lnPrior", jNpFs o.lnPrior),
+   ("lnLike", jNpFs o.lnLike)]
+
+def rejectSampleOp : H := fun j => do
+  let libLL ← getFloats j "libLL"; let lnp ← getFloats j "lnp"
+  if libLL.size ≠ lnp.size then throw "libLL/lnp size"
+  let nPrior ← optNat j "nPrior"; let maxPost ← optNat j "maxPost"; let nLinear ← getNat j "nLinear"
+  let idx ← optNats j "idx"
+  let uu ← getFloats j "uu"
+  let r := Reject.rejectionSample npExp (fun (p : Nat × NpF) => p.2) (mkLib libLL lnp)
+    ⟨nPrior, maxPost, nLinear⟩ idx (uu.toList.map NpF.mk)
+  match r with
+  | .error e => return Json.mkObj [("err", errName e)]
+  | .ok o => return Json.mkObj (jOut o)
+
+def getFloatLists (j : Json) (k : String) : Except String (List (List NpF)) := do
+  let a ← getArr j k
+  let ls ← a.toList.mapM fun x => (fromJson? x : Except String (Array Nat))
+  return ls.map fun l => l.toList.map fun b => NpF.mk (floatOfBits b)
+
+def iterSampleOp : H := fun j => do
+  let libLL ← getFloats j "libLL"; let lnp ← getFloats j "lnp"
+  if libLL.size ≠ lnp.size then throw "libLL/lnp size"
+  let req ← getNat j "req"; let maxPrior ← optNat j "maxPrior"; let initBatch ← optNat j "initBatch"
+  let growth ← getNat j "growth"; let nLinear ← getNat j "nLinear"; let maxiter ← getNat j "maxiter"
+  let guard ← getBool j "guard"
+  let idx ← optNats j "idx"
+  let sizes ← getNats j "sizes"
+  let uus ← getFloatLists j "uus"
+  -- growth policy := the observed request of each round (0 once the observed trace ends)
+  let grow : Nat → Nat → Nat → Nat → Nat := fun round _ _ _ => sizes.getD round 0
+  let r := Iter.iterativeSample npExp npNonFinite (fun (p : Nat × NpF) => p.2) (mkLib libLL lnp)
+    ⟨req, maxPrior, initBatch, growth, nLinear, maxiter, guard⟩ idx grow uus
+  match r with
+  | .error e => return Json.mkObj [("err", errName e)]
+  | .ok res => return Json.mkObj (jOut res.out ++ [("blocks", jPairs res.blocks), ("evaluated", jNat res.evaluated)])
+
+def rejectOps : List (String × H) :=
+  [("reject.sample", rejectSampleOp), ("iter.sample", iterSampleOp)]
 
 end Drive
